@@ -1,0 +1,156 @@
+//go:build verif
+
+package sql
+
+import (
+	"bytes"
+	"context"
+	stdsql "database/sql"
+	"io"
+	"sort"
+
+	"github.com/jdillenkofer/pithos/internal/storage/database"
+	partContent "github.com/jdillenkofer/pithos/internal/storage/database/repository/partcontent"
+	"github.com/jdillenkofer/pithos/internal/storage/metadatapart/partstore"
+)
+
+// Ghost scenario support for the contracts in zz_contracts_verif.go (see /verif/DESIGN.md): a part-content repository
+// that keeps its rows in memory (one row per part id and chunk index, like the table).
+
+type verifChunkKey struct {
+	id    partstore.PartId
+	index int
+}
+
+type verifContentRepo struct {
+	rows map[verifChunkKey][]byte
+}
+
+func (r *verifContentRepo) FindPartContentChunksById(ctx context.Context, tx *stdsql.Tx, partStoreId string, id partstore.PartId) ([]*partContent.Entity, error) {
+	var out []*partContent.Entity
+	for k, v := range r.rows {
+		if k.id == id {
+			idc := id
+			out = append(out, &partContent.Entity{Id: &idc, ChunkIndex: k.index, Content: v})
+		}
+	}
+	sort.Slice(out, func(i, j int) bool { return out[i].ChunkIndex < out[j].ChunkIndex })
+	return out, nil
+}
+
+func (r *verifContentRepo) FindPartContentChunkByIndex(ctx context.Context, tx *stdsql.Tx, partStoreId string, id partstore.PartId, chunkIndex int) (*partContent.Entity, error) {
+	v, ok := r.rows[verifChunkKey{id, chunkIndex}]
+	if !ok {
+		return nil, nil
+	}
+	return &partContent.Entity{Id: &id, ChunkIndex: chunkIndex, Content: v}, nil
+}
+
+func (r *verifContentRepo) FindPartContentIds(ctx context.Context, tx *stdsql.Tx, partStoreId string) ([]partstore.PartId, error) {
+	seen := map[partstore.PartId]bool{}
+	var out []partstore.PartId
+	for k := range r.rows {
+		if !seen[k.id] {
+			seen[k.id] = true
+			out = append(out, k.id)
+		}
+	}
+	return out, nil
+}
+
+func (r *verifContentRepo) PutPartContent(ctx context.Context, tx *stdsql.Tx, partStoreId string, e *partContent.Entity) error {
+	return r.SavePartContent(ctx, tx, partStoreId, e)
+}
+
+func (r *verifContentRepo) SavePartContent(ctx context.Context, tx *stdsql.Tx, partStoreId string, e *partContent.Entity) error {
+	r.rows[verifChunkKey{*e.Id, e.ChunkIndex}] = append([]byte{}, e.Content...)
+	return nil
+}
+
+func (r *verifContentRepo) DeletePartContentById(ctx context.Context, tx *stdsql.Tx, partStoreId string, id partstore.PartId) error {
+	for k := range r.rows {
+		if k.id == id {
+			delete(r.rows, k)
+		}
+	}
+	return nil
+}
+
+// verifSQLPartRoundTrip (ghost scenario, bounded): for every content - the empty one included - GetPart returns exactly
+// the bytes given to PutPart, GetPartIds lists exactly the parts that were put and not deleted, an overwritten part
+// reads as its new content, and a deleted part reads as not found.
+func verifSQLPartRoundTrip(seed []byte, size uint16, second uint16) bool {
+	repo := &verifContentRepo{rows: map[verifChunkKey][]byte{}}
+	ps, err := New(nil, repo)
+	if err != nil {
+		return false
+	}
+	tx := database.NewTx(nil)
+	ctx := context.Background()
+	body := func(n int) []byte {
+		out := make([]byte, n)
+		state := uint32(2463534242) + uint32(n)
+		for _, b := range seed {
+			state = state*31 + uint32(b)
+		}
+		for i := range out {
+			state ^= state << 13
+			state ^= state >> 17
+			state ^= state << 5
+			out[i] = byte(state)
+		}
+		return out
+	}
+	read := func(id partstore.PartId) ([]byte, error) {
+		rc, err := ps.GetPart(ctx, tx, id)
+		if err != nil {
+			return nil, err
+		}
+		defer rc.Close()
+		return io.ReadAll(rc)
+	}
+	a, err := partstore.NewRandomPartId()
+	if err != nil {
+		return false
+	}
+	b, err := partstore.NewRandomPartId()
+	if err != nil {
+		return false
+	}
+	first := body(int(size % 5)) // 0..4 bytes: the empty part is one case in five
+	if size%3 == 0 {
+		first = body(int(size) % 4000)
+	}
+	if ps.PutPart(ctx, tx, *a, bytes.NewReader(first)) != nil {
+		return false
+	}
+	if got, err := read(*a); err != nil || !bytes.Equal(got, first) {
+		return false
+	}
+	other := body(int(second % 7))
+	if ps.PutPart(ctx, tx, *b, bytes.NewReader(other)) != nil {
+		return false
+	}
+	ids, err := ps.GetPartIds(ctx, tx)
+	if err != nil || len(ids) != 2 {
+		return false
+	}
+	again := body(int(second) % 300) // overwrite a, possibly with the empty content
+	if ps.PutPart(ctx, tx, *a, bytes.NewReader(again)) != nil {
+		return false
+	}
+	if got, err := read(*a); err != nil || !bytes.Equal(got, again) {
+		return false
+	}
+	if got, err := read(*b); err != nil || !bytes.Equal(got, other) {
+		return false
+	}
+	if ps.DeletePart(ctx, tx, *a) != nil {
+		return false
+	}
+	if _, err := read(*a); err != partstore.ErrPartNotFound {
+		return false
+	}
+	ids, err = ps.GetPartIds(ctx, tx)
+	return err == nil && len(ids) == 1 && ids[0] == *b
+}
